@@ -19,7 +19,15 @@ META = {
                   "reaches Reqs.Upgrade's version); names_preserved_new_names_unique; tidy_idempotent; get_idempotent "
                   "under the reported hypothesis 'the build list has the resolved version' with "
                   "get_idempotent_refuted (F16 witness, vm_compute) and resolve_query_bl_independent; "
-                  "previous_strictly_lower (the F13 fact). mvs.Downgrade is proved in full: down_list_reach + "
+                  "previous_strictly_lower (the F13 fact). None of them assumes that a path has one name: a root may name "
+                  "one path under several names at equal or different versions (the former hypothesis paths_unique is "
+                  "gone from upgrade_contains_and_no_lower, patch_upgrade_lowers_nothing and get_idempotent, now that "
+                  "transformReqs is modelled after c4f8df7: a name whose own requirement is handed back keeps it, any "
+                  "other name of the path gets the highest returned version); names_preserved_any_list states the name "
+                  "clause for ANY computed list (repeated paths included), highest_is_the_maximum characterises "
+                  "'highest', old_names_order_independent shows the re-bound names do not depend on the order in which "
+                  "the (Go-map ordered) list is scanned, aliased_root_example is the instance behind fixes af3ea3a/c4f8df7. "
+                  "mvs.Downgrade is proved in full: down_list_reach + "
                   "down_list_no_hang (the add/exclude/previous phase - the formerly missing lemma down_list_spec: its "
                   "result only reaches nodes of the finite node set, none a version of the requested project above "
                   "the request, and it exhausts neither the add/exclude depth fuel nor the for-excluded loop fuel), "
@@ -31,16 +39,18 @@ META = {
                   "new requirements) with upgrade_all_idempotent_example. The model is tied to the code by running Get "
                   "(every query class), Tidy and UpgradeAll in sequences of 1-4 operations on generated universes, including "
                   "universes and roots that require untagged commits (selections that are no tag) with queries aimed at "
-                  "those selections, and with patch/upgrade resolution compared with an independent reference; every "
+                  "those selections, and ALIASED roots (one path under 2-3 names: equal versions, the lower version under "
+                  "the alphabetically first / last name, mixed) with get of absent projects, get of the selected version, "
+                  "queries on the aliased path, tidy and upgrade-all; patch/upgrade resolution is compared with an "
+                  "independent reference; every application is run 3 times (aliased: 8 times) on a fresh root map and "
+                  "the runs must agree (result-depends-on-map-order); every "
                   "resulting configuration is recomputed by the model (including every downgrade, with a watchdog) and the "
                   "statement's inequalities are checked directly against an independent build-list reference.",
     "level_note": "Trusted: Coq kernel; python rendering of versions into semver records and the syntactic "
                   "classification of the query string (after the implementation's own parseVersionQuery). Hypotheses "
                   "stated in the theorems: requirements name non-empty paths at canonical versions (wf_universe/"
-                  "wf_reqs), the resolved version is such a node (wf_node version), and for get 'no two requirement "
-                  "names share a path' (paths_unique): with two names for one path at different versions get assigns "
-                  "both the version that comes last in Go-map iteration order (class excluded from the generator; "
-                  "VERIF_DUP_PATHS=1 shows it). Known findings get-downgrade-overshoot and get-patch-absent are "
+                  "wf_reqs), the resolved version is such a node (wf_node version), requirement names are unique (a Go "
+                  "map). Known findings get-downgrade-overshoot and get-patch-absent are "
                   "reported under their keys.",
     "design_ref": "DESIGN.md §6 C11",
 }
@@ -162,12 +172,33 @@ def run(ctx):
                             "versions) of other projects, and one more sequence per universe starts from a root that "
                             "requires untagged commits and aims patch/upgrade/latest/version/range/ref queries at the "
                             "projects selected at one; a ref query that selects an untagged commit is followed by such a "
-                            "query on the same project; every application is repeated once on its own result; "
+                            "query on the same project; one more sequence per universe (1-3 operations) starts from an "
+                            "ALIASED root - one project path under 2-3 names, modes equal / low-first / low-last / mixed "
+                            "in rotation - and draws get of a project absent from the build list, get of a present "
+                            "project at its selected version, queries on the aliased path, tidy, upgrade-all; every "
+                            "application is run 3 times (8 times from an aliased root) on freshly built root maps and "
+                            "every distinct outcome is checked and compared with the model; every application is "
+                            "repeated once on its own result; "
                             "non-trivial = the operation succeeded and changed the configuration" % nuniv)
     ctx.coverage["exhaustive"] = False
     ctx.coverage["correspondence"]["distribution"] = dist
     ctx.coverage["correspondence"]["distribution_selected_untagged"] = dist_untagged
     ctx.coverage["correspondence"]["untagged_family_cases"] = len([c for c in cases if c.get("fam") == "untagged"])
+    alias_dist = {}
+    for c in cases:
+        if c.get("fam", "").startswith("aliased:"):
+            vs = {}
+            for e in c["cfg"]:
+                vs.setdefault(e[1], set()).add(e[2])
+            opk = c["op"]["op"]
+            if opk == "get":
+                opk = "get-present" if "sel" in c else "get-absent"
+            k = c["fam"][8:] + ":" + opk + (":versions-differ" if any(len(x) > 1 for x in vs.values()) else ":versions-equal")
+            alias_dist[k] = alias_dist.get(k, 0) + 1
+    ctx.coverage["correspondence"]["aliased_family_cases"] = sum(alias_dist.values())
+    ctx.coverage["correspondence"]["distribution_aliased"] = alias_dist
+    ctx.coverage["correspondence"]["runs_per_application"] = {"default": int(os.environ.get("VERIF_RUNS", "3")),
+                                                              "aliased_root": int(os.environ.get("VERIF_RUNS_ALIASED", "8"))}
     ctx.coverage["correspondence"]["universes_requiring_untagged_commits"] = len(
         [u for u in unis.values() if any(PSEUDO.search(r[1]) for s in u["sums"] for r in s[3])])
     ctx.add_samples([{"cfg": c["cfg"], "op": c["op"], "result": c["res"]} for c in cases
